@@ -109,6 +109,20 @@ def run_case(ctx, name, params):
             if r.random() < 0.5:
                 inds[0].population_id = r.choice(tags)
             ctx.count("queries_repeated_after_more_recording")
+        elif r.random() < 0.6 and len(inds) >= 2:
+            # everything is recorded and queried once; then the record changes WITHOUT changing its length (generation tags corrected
+            # in place, the list re-ordered as a new list object of the same designs): later answers describe the record as it is now
+            try:
+                res.population(); res.table(); res.parameters(); res.pareto_front(); res.goal_on_index()
+                for t_ in sorted({i.population_id for i in inds}):
+                    res.population(t_)
+            except Exception:
+                pass
+            for i in r.sample(inds, r.randint(1, max(1, len(inds) // 2))):
+                i.population_id = r.choice(tags)
+            if r.random() < 0.4 and p.individuals is not inds:
+                p.individuals = list(p.individuals)
+            ctx.count("queries_repeated_after_same_length_change")
         rec = [{"vector": i.vector, "costs": i.costs, "tag": i.population_id, "front": i.features["front_number"]} for i in inds]
         wit = lambda extra=None: {"recorded": rec[:12], "criteria": crit, "extra": extra}
         present = sorted({i.population_id for i in inds})
